@@ -19,21 +19,36 @@ RULE_B = ("a real CompassApp built from TOML on a generated 5x5 grid network (+ 
           "traversal_summary, path) with clock/memory fields dropped; I = returned vector in order + sink content as a "
           "multiset; M = Batch.run composed from what the real apply_input_plugins / get_query_weight_estimate / "
           "run_single_query / package_error answer for each query; S = multiset of CompassApp::run on each query alone at "
-          "parallelism 1, plus request-echo and expansion-count oracles computed from the query text; non-trivial = >= 2 "
-          "queries, >= 2 bins, both successful and error responses; real thread schedules are explored, not proved")
+          "parallelism 1, plus a request-echo oracle computed from the query text and exactly one response for a query "
+          "without grid section; M composes the outcome of the REAL InputPlugin::process on every element of every stage; "
+          "expansion cases (corpus witness first, then every distinct grid query alone): I = multiset of the query's "
+          "responses, M = faithful model, S = every expanded query answered on its own (Batch.answer_ideal): they differ "
+          "exactly in the class K_child_error_drops_siblings; non-trivial = >= 2 queries, >= 2 bins, both successful and "
+          "error responses (batch cases) or >= 2 expanded queries (expansion cases); real thread schedules are explored, "
+          "not proved")
 
-# suspected findings reported to the coordinator (input-class predicates are in the harness:
-# class_nonobject_request, class_grid_partial_failure); honoured only once the coordinator has
-# entered the id in known_findings.json
-SUSPECTED = {
-    "D-NONOBJ-REQ": "a non-object query that no input plugin rejects first is answered with request "
-                    "{\"error\": \"unable to display query\"} instead of the query",
-    "D-GRIDFAIL": "a grid-search query of which one child is rejected by a later input plugin is answered by ONE error "
-                  "response instead of one response per expanded query",
-}
+RULE_C = ("probe of the prediction cache (FloatCachePolicy behind PredictionModelRecord::predict): a real CompassApp with the "
+          "energy_model traversal (speed_table time model, bundled Toyota_Camry.bin, float_cache_policy key_precisions "
+          "[-1,0] [0,0] [-1,2] [2,4]), 2-4 random queries answered in two orders on fresh applications and without cache; "
+          "the histogram reports how often the answers depend on the order; no comparison can fail (D-CACHE, informational); "
+          "non-trivial = an order-dependent probe")
+
+RULE_E = ("the batch stream again on a CompassApp with the energy_model traversal (speed_table time model + bundled "
+          "Toyota_Camry.bin smartcore model, three cost features distance/time/energy_liquid with weights 1/1/1, every object "
+          "query names the vehicle, a few do not): total_cost, per-feature costs, traversal summary, path and the state_model "
+          "indices compared bit for bit across repeated runs, parallelism, orders, thread pools and each query alone; first "
+          "the corpus witness: one query 300 times in a row must give one distinct response (fixed 147ae1b, d268fda)")
+
+K_ID = "K_child_error_drops_siblings"
 
 
 def classify(case, i, m, s):
+    """K_child_error_drops_siblings: an expansion case (one query alone) whose query is in the class
+    (grid_search gives >= 2 children and a later input plugin returns Err on one of them: decided by
+    the harness from the real plugins' answers), where the implementation agrees with the faithful
+    model and both differ from "every expanded query answered on its own"."""
+    if case.get("kind") == "expansion" and case.get("in_class_K") and i is not None and i == m and i != s:
+        return K_ID
     return None
 
 
@@ -49,10 +64,14 @@ def run(chk):
     chk.assumptions = [
         "parallelism used for load balancing >= 1 (0 is accepted by the configuration reader and makes run return Err: "
         "theorem c06_parallelism_zero, stream family parallelism_zero)",
-        "ResponseSink::write_response does not fail (I/O); with a failing sink the persist policy returns Err for the whole "
-        "batch and the discard policy drops that response silently (modelled, by reading; C19 covers the sink)",
+        "ResponseSink::write_response does not fail (I/O); a failed write of a pre-search error response or, under the "
+        "persist policy, of any response makes run return Err; under the discard policy a failed write of a searched "
+        "response is dropped silently (modelled, by reading; C19 covers the sink)",
+        "outside the class K_child_error_drops_siblings (known finding) for 'one response per expanded query'; the "
+        "multiset / order / parallelism / run-alone theorems hold inside the class too",
         "batch size < 2^52 (the chunk size is computed in f64)",
-        "responses compared on request, success/error text, route cost, traversal summary, path"]
+        "responses compared on request, success/error text, route cost (per feature and total), traversal summary, path, "
+        "state_model (feature indices); floats bit for bit"]
     chk.proofs(extra_targets=["Model/BatchRun.vo"])
     binp = vf.build_harness("c06")
     quick = chk.tier == "quick"
@@ -62,38 +81,50 @@ def run(chk):
         chk.add_stream(r, RULE_LB)
         vf.compare(chk, r, classify=classify, binpath=binp)
     if which in (None, "batch"):
-        r2 = vf.run_stream(binp, "batch", 640 if quick else 8000, chk.seed, os.path.join(chk.outdir, "batch"),
-                           replay=chk.replay, timeout=6000)
+        extra = ["--corpus", os.path.join(vf.ROOT, "corpus", "C06")]
+        r2 = vf.run_stream(binp, "batch", 700 if quick else 8000, chk.seed, os.path.join(chk.outdir, "batch"),
+                           extra=extra, replay=chk.replay, timeout=6000)
         chk.add_stream(r2, RULE_B)
-        _set_aside_unreported(chk, r2)
-        vf.compare(chk, r2, classify=classify, binpath=binp)
+        vf.compare(chk, r2, classify=classify, binpath=binp, extra=extra)
+    if which in (None, "energy"):
+        extra = ["--corpus", os.path.join(vf.ROOT, "corpus", "C06")]
+        r4 = vf.run_stream(binp, "energy", 220 if quick else 3000, chk.seed, os.path.join(chk.outdir, "energy"),
+                           extra=extra, replay=chk.replay, timeout=6000)
+        chk.add_stream(r4, RULE_E)
+        vf.compare(chk, r4, classify=classify, binpath=binp, extra=extra)
+    if which in (None, "cache"):
+        r3 = vf.run_stream(binp, "cache", 40 if quick else 400, chk.seed, os.path.join(chk.outdir, "cache"), replay=chk.replay)
+        chk.add_stream(r3, RULE_C)
+        vf.compare(chk, r3, classify=classify, binpath=binp)
+        h = r3.stats.get("hist", {})
+        chk.coverage["prediction_cache_probe"] = {
+            "what": "energy_model traversal with float_cache_policy on the bundled Toyota_Camry model: the same queries in two "
+                    "orders on fresh applications, and without cache (control: without cache the order must not matter)",
+            "order_dependent": h.get("cache:order_dependent", 0), "order_independent": h.get("cache:order_independent", 0),
+            "differs_from_uncached": h.get("cache:differs_from_uncached", 0),
+            "control_uncached_order_dependent": h.get("control:uncached_ORDER_DEPENDENT", 0),
+            "not_configurable": h.get("cache:not_configurable", 0),
+            "verdict": "D-CACHE (known design limitation): informational, never an alarm"}
+        vf.log("C06 cache probe: %s" % json.dumps({k: v for k, v in h.items() if k.startswith(("cache:", "control:"))}))
+    _one_line_per_finding(chk)
     if chk.broken_obligation:
         chk.violation("broken-obligation", "proofs", {"obligations": chk.broken_obligation}, "does not check", "Qed",
                       found=False, key="obligation")
 
 
-def _set_aside_unreported(chk, r):
-    """Queries of a case that deviate from the request-echo / expansion-count oracles AND fall in an
-    input class reported as a suspected finding are listed by the harness under desc["suspected"]
-    (they are not in the flags compared with S; everything else about the case is compared as
-    usual).  Here they become KNOWN-FINDING lines when the coordinator has entered the id in
-    known_findings.json, and an evidence entry otherwise."""
-    honoured = chk.finding_ids()
-    seen = {}
-    for cid, case in r.cases.items():
-        for fid, idxs in (case.get("suspected") or {}).items():
-            if idxs:
-                seen.setdefault(fid, []).append((cid, idxs[0]))
-    for fid, hits in seen.items():
-        cid, qi = hits[0]
-        q = r.cases[cid]["queries"][qi]
-        what = "%s; e.g. query %s (lb plugin %s); %d cases" % (SUSPECTED.get(fid, fid), json.dumps(q), r.cases[cid]["lb"], len(hits))
-        if fid in honoured:
-            chk.known_finding(fid, what)
+def _one_line_per_finding(chk):
+    """the class shows up in many generated cases: print the first one (the corpus witness runs first)
+    and the number of further cases"""
+    first, more = {}, {}
+    for ln in chk.known:
+        key = ln.split(":")[1].strip() if ":" in ln else ln
+        fid = ln.split(" ")[2].rstrip(":") if len(ln.split(" ")) > 2 else ln
+        if fid in first:
+            more[fid] = more.get(fid, 0) + 1
         else:
-            chk.coverage.setdefault("suspected_findings_not_in_known_findings", {})[fid] = {
-                "cases": len(hits), "what": what, "sample_case": r.cases[cid]}
-            vf.log("C06: %d cases contain a query of suspected-finding class %s (not in known_findings.json)" % (len(hits), fid))
+            first[fid] = ln
+    chk.known = [ln + (" (+%d more cases of the class in this run)" % more[fid] if more.get(fid) else "")
+                 for fid, ln in first.items()]
 
 
 def _stream_of(chk):
